@@ -7,6 +7,8 @@ import (
 	"errors"
 	"fmt"
 	"io"
+	"os"
+	"syscall"
 
 	biscuit "github.com/biscuit-auth/biscuit-go/v2"
 )
@@ -44,7 +46,7 @@ func (r *faultReader) Read(p []byte) (int, error) {
 				return 0, nil
 			}
 		}
-		return 0, errors.New("entropy source failed")
+		return 0, r.failure()
 	}
 	n := len(p)
 	if n > r.chunk {
@@ -55,7 +57,31 @@ func (r *faultReader) Read(p []byte) (int, error) {
 	}
 	copy(p, r.data[r.pos:r.pos+n])
 	r.pos += n
+	if r.pos >= r.k && r.k < 32 && (r.fault == "error_with_data" || r.fault == "eof_with_data") {
+		return n, r.failure() // io.Reader allows the last bytes and the error in one call
+	}
 	return n, nil
+}
+
+// the error value of a persistent failure; some kinds satisfy interfaces a caller might special-case
+func (r *faultReader) failure() error {
+	switch r.fault {
+	case "eof", "eof_with_data":
+		return io.EOF
+	case "unexpected_eof":
+		return io.ErrUnexpectedEOF
+	case "temporary":
+		return syscall.EAGAIN // Temporary() == true, Timeout() == true
+	case "interrupted":
+		return syscall.EINTR // Temporary() == true
+	case "deadline":
+		return os.ErrDeadlineExceeded // Timeout() == true
+	case "wrapped_eof":
+		return fmt.Errorf("reading entropy: %w", io.EOF)
+	case "path_error":
+		return &os.PathError{Op: "read", Path: "/dev/urandom", Err: syscall.EIO}
+	}
+	return errors.New("entropy source failed")
 }
 
 func runRng(c *RngCase) (res interface{}, herr error) {
